@@ -195,15 +195,11 @@ def coq_eval(preamble, exprs, name="cases", timeout=600, raw=False):
                   cwd=SCRATCH, timeout=timeout)
     if rc != 0:
         raise RuntimeError("coq_eval failed: " + (e or o)[-3000:])
-    parts = re.split(r"=\s*\(777777%N,", o)[1:]
+    parts = re.split(r"=\s*\(777777(?:%N)?,", o)[1:]
     outs = []
     for p in parts:
-        body = re.split(r"\)\s*\n?\s*:\s", p, maxsplit=1)[0] if not raw else p
-        # body ends with ")" of the pair then type; cut at last "\n     :" occurrence
-        body = p[:p.rfind("\n     :")] if "\n     :" in p else p
-        body = body.rstrip()
-        if body.endswith(")"):
-            body = body[:-1]
+        m = re.search(r"\)\s*\n\s*:\s", p)
+        body = p[:m.start()] if m else p
         outs.append(body.strip() if raw else decode_nlist(body))
     if len(outs) != len(exprs):
         raise RuntimeError(f"coq_eval: expected {len(exprs)} results, got {len(outs)}\n{o[-2000:]}")
